@@ -238,3 +238,8 @@ package unary
 //@   atcall Commit old(end) == 0 && dw.tracker.count(dw.Writer) == 1 ==> (forall p int, s int64 :: index.SpecRefAt(w.idx.DB, w.cfg.Start, p, s) && s < index.SpecCnt(w.idx.DB, p) && index.SpecIdxStamp(w.idx.DB, p, s) == w.cfg.Start ==> end == w.cfg.Start + 1)
 //@   atcall Commit old(end) == 0 && dw.tracker.count(dw.Writer) > 1 ==> (forall p int, s int64 :: index.SpecRefAt(w.idx.DB, w.cfg.Start, p, s) && s < index.SpecCnt(w.idx.DB, p) && index.SpecIdxStamp(w.idx.DB, p, s) == w.cfg.Start ==> (exists k int, j int64 :: index.SpecGlobal(w.idx.DB, p, s + dw.tracker.count(dw.Writer) - 1, k, j) && end == index.SpecIdxStamp(w.idx.DB, k, j) + 1))
 //@   ensures err == nil && old(end) != 0 ==> ts == old(end)
+
+//@ # as seen by cesium's stream writer: a refused or failed open returns no writer
+//@ trusted func (db *DB) OpenWriter(ctx context.Context, cfgs ...WriterConfig) (w *Writer, transfer control.Transfer, err error)
+//@   ensures (err == nil) == (w != nil)
+//@   modifies nothing
